@@ -64,6 +64,8 @@ struct Obs {
     mstart: u64,
     mdur: u64,
     mgen: u64,
+    /// `Epoch{id}` of the previous / next id as `id:start`, `err`, `panic` or `-`
+    mq: String,
     hooks: Vec<usize>,
     d: bool,
     did: u64,
@@ -81,8 +83,8 @@ impl Obs {
             self.hooks.iter().map(|k| k.to_string()).collect::<Vec<_>>().join(",")
         };
         let mut s = format!(
-            "m={} mid={} mstart={} mdur={} mgen={} hooks={} d={} did={} dstart={} ddur={} dgen={}",
-            self.m as u8, self.mid, self.mstart, self.mdur, self.mgen, hooks, self.d as u8, self.did, self.dstart,
+            "m={} mid={} mstart={} mdur={} mgen={} mq={} hooks={} d={} did={} dstart={} ddur={} dgen={}",
+            self.m as u8, self.mid, self.mstart, self.mdur, self.mgen, if self.mq.is_empty() { "-/-" } else { &self.mq }, hooks, self.d as u8, self.did, self.dstart,
             self.ddur, self.dgen
         );
         for (i, l) in self.logs.iter().enumerate() {
@@ -118,6 +120,19 @@ impl Stack {
             o.mstart = e.epoch.start_time.nanos();
             o.mdur = c.epoch_config.duration.u64();
             o.mgen = c.epoch_config.genesis_epoch.u64();
+            // `Epoch{id}` of the previous and of the next id (the query may panic on its arithmetic)
+            let q = |id: u64| -> String {
+                let app = &self.app;
+                let m = m.clone();
+                match guarded(move || app.wrap().query_wasm_smart::<em::EpochResponse>(&m, &em::QueryMsg::Epoch { id })) {
+                    Outcome::Ok(r) => format!("{}:{}", r.epoch.id, r.epoch.start_time.nanos()),
+                    Outcome::Err(_) => "err".into(),
+                    Outcome::Panic => "panic".into(),
+                }
+            };
+            let prev = if o.mid == 0 { "-".to_string() } else { q(o.mid - 1) };
+            let nxt = if o.mid == u64::MAX { "-".to_string() } else { q(o.mid + 1) };
+            o.mq = format!("{prev}/{nxt}");
             // the manager has no hooks query: the raw `hooks` item (cw-controllers `Hooks`)
             if let Some(raw) = self.app.wrap().query_wasm_raw(m, b"hooks".to_vec()).unwrap() {
                 let hs: Vec<Addr> = cosmwasm_std::from_json(raw).unwrap();
